@@ -90,6 +90,9 @@ pub mod utils;
 #[cfg(test)]
 mod mock;
 
+#[cfg(feature = "verif")]
+pub mod verif;
+
 /// Public result type used by the crate.
 pub type Result<T> = std::result::Result<T, error::Error>;
 
